@@ -1333,11 +1333,19 @@ class HttpHeaderFieldValueSetCookieParamDomain(FieldValueComponentString):
     def get_canonical_name(cls):
         return 'Domain'
 
+    @classmethod
+    def _check_name(cls, name):
+        cls._check_name_insensitive(name)
+
 
 class HttpHeaderFieldValueSetCookieParamPath(FieldValueComponentString):
     @classmethod
     def get_canonical_name(cls):
         return 'Path'
+
+    @classmethod
+    def _check_name(cls, name):
+        cls._check_name_insensitive(name)
 
 
 class HttpHeaderFieldValueSetCookieParamSecure(FieldValueComponentOption):
@@ -1368,6 +1376,10 @@ class HttpHeaderFieldValueSetCookieParamSameSite(FieldValueComponentStringEnum):
     @classmethod
     def get_canonical_name(cls):
         return 'SameSite'
+
+    @classmethod
+    def _check_name(cls, name):
+        cls._check_name_insensitive(name)
 
     @classmethod
     def _get_value_type(cls):
